@@ -67,7 +67,8 @@ func (self *Node) UnmarshalJSON(data []byte) (err error) {
 	if len(data) == 0 {
 		return ErrNotExist
 	}
-	*self = newRawNode(rt.Mem2Str(data), switchRawType(data[0]), false)
+	/* a json.Unmarshaler must copy the data it retains */
+	*self = newRawNode(string(data), switchRawType(data[0]), false)
 	return nil
 }
 
